@@ -212,10 +212,13 @@ def parse_clafer(text):
     lines = text.split("\n")
     start = next(i for i, ln in enumerate(lines) if ln.startswith("abstract ") and ln != "abstract AttributedFeature")
     decls = []
+    decl_types = {}
     if lines[0] == "abstract AttributedFeature":
         for ln in lines[1:start]:
             if ln.startswith("\t"):
-                decls.append(split_quoted(ln.strip())[0])
+                dt = split_quoted(ln.strip())
+                decls.append(dt[0])
+                decl_types[dt[0]] = dt[2] if len(dt) > 2 else ""
     feats, ctcs, attr_uses = [], [], []
     stack = []
     root = None
@@ -232,7 +235,22 @@ def parse_clafer(text):
             if depth == 0:
                 ctcs.append(inner)
             else:
-                attr_uses.append(split_quoted(inner)[0])
+                ut = split_quoted(inner)
+                attr_uses.append(ut[0])
+                # the value must have the type the attribute was declared with
+                lit = inner.split(" = ", 1)[1] if " = " in inner else ""
+                if lit in ("true", "false"):
+                    ty = "boolean"
+                elif re.fullmatch(r"-?[0-9]+", lit):
+                    ty = "integer"
+                elif re.fullmatch(r"-?[0-9]*\.[0-9]+([eE][-+]?[0-9]+)?|-?[0-9]+[eE][-+]?[0-9]+", lit):
+                    ty = "double"
+                elif lit == "":
+                    ty = ""
+                else:
+                    ty = "string"
+                if ut[0] in decl_types and decl_types[ut[0]] != ty:
+                    raise ValueError(f"attribute {ut[0]}: value {lit!r} does not have the declared type {decl_types[ut[0]]!r}")
             continue
         if i - 1 == start:
             body = body[len("abstract "):]
@@ -536,11 +554,17 @@ def clafer_model(g, n):
                     grow(c, depth + 1)
     grow(root, 0)
     feats = list(spec.spec_features(root))
+    for f in feats[1:]:
+        if rng.random() < 0.2:
+            f["abstract"] = True       # an abstract feature is still selectable: it must stay an ordinary clafer
     anames = g.names(3, ("plain", "space", "nonascii"))
+    # one value type per attribute name: the export declares every attribute once, with one type
+    pools = [[True, False], [3, -7, 0, 1], [1.5, 0.0, 1.0, -2.25], ["txt", "two words", "true", "1"], [None]]
+    pool_of = {an: rng.choice(pools) for an in anames}
     for f in feats:
         if rng.random() < 0.3:
             for an in rng.sample(anames, rng.randint(1, 2)):
-                f["attrs"].append(spec.A(an, default=rng.choice([True, 3, -7, 1.5, "txt", "two words", None])))
+                f["attrs"].append(spec.A(an, default=rng.choice(pool_of[an])))
     fnames = [f["name"] for f in feats]
     return dict(root=root, ctcs=g.ctcs(fnames, rng.choice([0, 1, 2, 3]), gen.LOGICAL, 2))
 
